@@ -56,7 +56,7 @@ CHECKS = {
                       'for * / % the harnesses are modular in the std primitive the code delegates to (i32/u32::wrapping_mul, i128::checked_mul, checked_div, wrapping_rem): the primitive is replaced by a recorder and the harness proves it is called exactly once with the two operand values in order and that its result (None = not constant) is returned unchanged, for every operand value, '
                       'plus, on the real primitives, the divisors 0, 1, -1 (all-ones) with any dividend; evaluate_cast to bool/int/uint/half/float/double and to enums with int / uint underlying type from every source kind incl. enum constants; '
                       'Constant::to_uint64 yields exactly the non-negative integer values. Sub-expression evaluation is cut by stubs, so the results hold at any expression depth.',
-        'level_note': 'Tiers: the quick tier runs 24 of the 39 complete harnesses (all casts, all unary operators, boolean and/or, < >, the modular multiplication, non-constant propagation); the other 15 binary-operator harnesses (2 to 5 CPU-minutes each) run in the thorough tier together with the bounded value-level ones. Assumed: the std contracts of wrapping_mul / checked_mul / checked_div / wrapping_rem (two\'s-complement wrapping product, exact product or None, truncating quotient or None, its remainder). The direct full-width equivalence with a second multiplier / divider circuit '
+        'level_note': 'Tiers: the quick tier runs 23 of the 38 complete harnesses (all casts, all unary operators, boolean and/or, < >, the modular multiplication, non-constant propagation); the other 15 binary-operator harnesses (2 to 5 CPU-minutes each) run in the thorough tier together with the bounded value-level ones. Assumed: the std contracts of wrapping_mul / checked_mul / checked_div / wrapping_rem (two\'s-complement wrapping product, exact product or None, truncating quotient or None, its remainder). The direct full-width equivalence with a second multiplier / divider circuit '
                       'does not finish reliably in any installed back end (kissat 7-50+ min for *, none for / %; z3 and cvc5 fail inside CBMC); value-level bounded harnesses (integer operands < 2^12, untyped-literal products < 2^20) run in the thorough tier and are never counted. uint % uses the % operator (not stubbable): special divisors + bounded only. '
                       'If the code stops delegating to the primitive the modular harness reports undecided (cover unsatisfied), not a violation. Assumed (harness preconditions, not proved of the typer): arity matches the operator; operands are all of one enum type or none; '
                       'both operands have the same kind; ~ only on integers; the type / enum registries hold the layers the cast harness stubs for their getters. Bool operands are left out of < <= > >= because Kani 0.68 mis-models the ordering of bool. '
